@@ -225,6 +225,15 @@ def _shrink_probes():
 
 
 SHRINK_PROBES = _shrink_probes()
+# chains DEEPER than any bound a marker might put on its recursion and far shallower than the native stack (F7 is at ~10^5): 1500 links of
+# vectors, of tuples, of instances, of closures over their predecessor; walked to the bottom after collections
+SHRINK_PROBES += [
+    ("deep.chain.vec", "var head = [\"bottom\"]; var i = 0; while i < 1500 { head = [i, head]; i = i + 1; } churn(); var p = head; var n = 0; while p.len() == 2 { p = p[1]; n = n + 1; } churn(); print(n); print(p);"),
+    ("deep.chain.tuple", "var head = (\"bottom\",); var i = 0; while i < 1500 { head = (head, i); i = i + 1; } churn(); var p = head; var n = 0; while p.len() == 2 { p = p[0]; n = n + 1; } churn(); print(n); print(p);"),
+    ("deep.chain.instance", "#[constructor(new)] class Node {} var head = Node.new(); head.v = [\"bottom\"]; head.next = nil; var i = 0; while i < 1500 { var nd = Node.new(); nd.v = [i]; nd.next = head; head = nd; i = i + 1; } "
+                            "churn(); var p = head; var n = 0; while p.next != nil { p = p.next; n = n + 1; } churn(); print(n); print(p.v);"),
+    ("deep.chain.closure", "var f = || [\"bottom\"]; var i = 0; while i < 1500 { var g = f; var k = [i]; f = || [k, g]; i = i + 1; } churn(); var p = f(); var n = 0; while p.len() == 2 { p = p[1](); n = n + 1; } churn(); print(n); print(p);"),
+]
 
 
 def all_probes():
